@@ -143,7 +143,18 @@ func c20RoundTrip(r *vhlib.Run, codes prefix.PrefixCodes, replay map[string]inte
 	for _, big := range []bool{false, true} {
 		var ops []bitOp
 		for _, c := range codes {
-			ops = append(ops, bitOp{Kind: 's', V: uint(c.Sym)})
+			ops = append(ops, bitOp{Kind: 's', V: uint(c.Sym), NB: uint(rng.Intn(2))})
+		}
+		// long runs of symbols through the fast path, so that every fill level of
+		// the 64-bit buffer meets every code length
+		if len(codes) <= 64 {
+			for k := 0; k < 120; k++ {
+				ops = append(ops, bitOp{Kind: 's', V: uint(codes[rng.Intn(len(codes))].Sym), NB: 1})
+				if rng.Intn(4) == 0 {
+					nb := uint(1 + rng.Intn(7))
+					ops = append(ops, bitOp{Kind: 'b', V: uint(rng.Intn(1 << nb)), NB: nb, Raw: []byte{1}})
+				}
+			}
 		}
 		for k := 0; k < 20; k++ {
 			switch rng.Intn(6) {
@@ -175,9 +186,22 @@ func c20Script(r *vhlib.Run, ops []bitOp, enc *prefix.Encoder, dec *prefix.Decod
 		for _, o := range ops {
 			switch o.Kind {
 			case 's':
-				pw.WriteSymbol(o.V, enc)
+				// the callers' pattern: fast path first, slow path on refusal
+				if o.NB == 1 {
+					if ok := pw.TryWriteSymbol(o.V, enc); !ok {
+						pw.WriteSymbol(o.V, enc)
+					}
+				} else {
+					pw.WriteSymbol(o.V, enc)
+				}
 			case 'b':
-				pw.WriteBits(o.V, o.NB)
+				if o.NB <= 32 && len(o.Raw) == 1 {
+					if ok := pw.TryWriteBits(o.V, o.NB); !ok {
+						pw.WriteBits(o.V, o.NB)
+					}
+				} else {
+					pw.WriteBits(o.V, o.NB)
+				}
 			case 'p':
 				pw.WritePads(0)
 			case 'r':
